@@ -158,4 +158,5 @@ func genExtra() {
 	genC15()
 	genC14()
 	genC06()
+	genC11()
 }
